@@ -240,6 +240,10 @@ fn cap_of(o: &CellOutput) -> u64 {
     c.as_u64()
 }
 
+fn witness_lock(b: &BlockView) -> Script {
+    packed::CellbaseWitness::from_slice(&b.transactions()[0].witnesses().get(0).unwrap().raw_data()).expect("cellbase witness").lock()
+}
+
 fn verdict(r: &Result<bool, String>) -> String {
     match r {
         Ok(true) => "ok".into(),
@@ -800,13 +804,20 @@ impl Scn {
         if self.cfg.per.is_some() {
             return self.exec_nb_linear(ts, ctx);
         }
-        assert!(ts.len() == 7, "malformed nb line");
+        assert!(ts.len() == 7 || ts.len() == 8, "malformed nb line");
         let label: u64 = ts[1].parse().expect("label");
         let parent: u64 = ts[2].parse().expect("label");
         let salt: u64 = ts[3].parse().expect("salt");
         let tx_labels = nums(ts[4]);
         let props = nums(ts[5]);
         let uncle_labels = nums(ts[6]);
+        // the miner lock of this block (cellbase witness): always-success code hash, args from the spec
+        // (`ChainBuilder::miner_args`); blocks of different branches can pay different miners
+        let miner_spec = ts.get(7).copied().unwrap_or("a0.0");
+        assert!(miner_spec.starts_with('a'), "malformed: a fork scenario's miner lock is an always-success lock (a<len>.<id>)");
+        let miner_lock = lock_from_spec(miner_spec);
+        let miner_id = self.lock_id(&miner_lock);
+        self.builder.miner_args = miner_lock.args().raw_data().to_vec();
         assert!(!self.blocks.contains_key(&label) && label != 0, "malformed: duplicate block label");
         let (p_hash, p_number, p_header) = {
             let p = self.blocks.get(&parent).expect("malformed: unknown parent label");
@@ -835,24 +846,36 @@ impl Scn {
         // ---- implementation side, before the builder's store moves on: epoch of the new block and the
         //      repo's RewardCalculator
         let consensus = self.consensus.clone();
-        let (epoch, impl_reward) = {
+        let (epoch, impl_reward, impl_pay) = {
             let bstore = self.builder.replay_store(&p_hash);
             let epoch = consensus.next_epoch_ext(&p_header, &bstore.borrow_as_data_loader()).expect("epoch of the new block").epoch();
             let store: &ChainDB = if on_tip { self.node.as_ref().unwrap().store() } else { bstore };
             let r = RewardCalculator::new(&consensus, store).block_reward_to_finalize(&p_header);
-            let s = match r {
-                Ok((_lock, br)) => format!(
-                    "ok target={} total={} primary={} secondary={} txfee={} proposal={}",
-                    number.saturating_sub(delay),
-                    br.total.as_u64(),
-                    br.primary.as_u64(),
-                    br.secondary.as_u64(),
-                    br.tx_fee.as_u64(),
-                    br.proposal_reward.as_u64()
+            let (s, pay) = match r {
+                Ok((lock, br)) => (
+                    format!(
+                        "ok target={} total={} primary={} secondary={} txfee={} proposal={}",
+                        number.saturating_sub(delay),
+                        br.total.as_u64(),
+                        br.primary.as_u64(),
+                        br.secondary.as_u64(),
+                        br.tx_fee.as_u64(),
+                        br.proposal_reward.as_u64()
+                    ),
+                    Some((lock, br.total)),
                 ),
-                Err(_) => "err-overflow".to_string(),
+                Err(_) => ("err-overflow".to_string(), None),
             };
-            (epoch_tuple(&epoch), s)
+            (epoch_tuple(&epoch), s, pay)
+        };
+        // what the repo's calculator (on the node's store for a tip parent, on the branch store of a
+        // fork parent) + `is_lack_of_capacity` say the cellbase has to be: amount and LOCK
+        let impl_cb = match &impl_pay {
+            Some((lock, total)) => {
+                let lack = CellOutput::new_builder().capacity(*total).lock(lock.clone()).build().is_lack_of_capacity(Capacity::zero()).expect("occupied");
+                if number <= delay || lack { "none".to_string() } else { format!("out {} {}", total.as_u64(), self.lock_id(lock)) }
+            }
+            None => "err-overflow".to_string(),
         };
         let built = self.builder.build(&p_hash, &spec);
 
@@ -876,6 +899,42 @@ impl Scn {
             let tb = &self.blocks[&tl].block;
             packed::CellbaseWitness::from_slice(&tb.transactions()[0].witnesses().get(0).unwrap().raw_data()).expect("cellbase witness").lock()
         };
+        // implementation-only oracle: the lock RewardCalculator selects (walking `finalization_parent`
+        // back from the parent on ITS branch) is the miner lock of the block `delay` back on this branch
+        if number > delay {
+            if let Some((lock, _)) = &impl_pay {
+                ctx.out.count(if on_tip { "target-lock-selected-on-the-main-chain" } else { "target-lock-selected-on-a-side-branch" });
+                if *lock != target_lock {
+                    ctx.out.oracle_fail("calculator-target-lock-not-on-branch", &format!("block {} (label {}) on parent label {}: target {} (label {})", number, label, parent, m_target, path[m_target as usize]));
+                }
+                // is there a block of the same height on another branch paying another miner?
+                if self.blocks.values().any(|b| b.number == m_target && b.label != path[m_target as usize] && witness_lock(&b.block) != target_lock) {
+                    ctx.out.count(if on_tip { "target-height-has-another-miner-on-another-branch" } else { "target-height-has-another-miner-on-another-branch:side-branch-parent" });
+                }
+            }
+        }
+        // the model's cellbase (amount and lock id from ITS lock table, which follows the branch)
+        let ci = self.say(ctx, &format!("cellbase {}", p_number), Some(impl_cb));
+        let canswer = self.model_of(ci).to_string();
+        let m_pays: Option<(u64, usize)> = {
+            let parts: Vec<&str> = canswer.split(' ').collect();
+            match parts.as_slice() {
+                ["none"] => None,
+                ["out", cap, id] => Some((cap.parse().expect("capacity"), id.parse().expect("lock id"))),
+                _ => {
+                    eprintln!("C06 node: the model has no cellbase for parent {}: {}", p_number, canswer);
+                    self.dead = true;
+                    return;
+                }
+            }
+        };
+        if let Some((cap, id)) = m_pays {
+            if cap != m_total || self.lock_scripts.get(id) != Some(&target_lock) {
+                ctx.out.oracle_fail("model-target-lock-not-on-branch", &format!("block {} (label {}): model pays `{}`, the target on this branch is label {}", number, label, canswer, path[m_target as usize]));
+                self.dead = true;
+                return;
+            }
+        }
         let lock_args = target_lock.args().raw_data().len();
         let impl_occ = CellOutput::new_builder().lock(target_lock.clone()).build().occupied_capacity(Capacity::zero()).expect("occupied").as_u64();
         let oi = self.say(ctx, &format!("occupied 0:{}:n:0", lock_args), Some(format!("ok {}", impl_occ)));
@@ -893,7 +952,21 @@ impl Scn {
                 return;
             }
         };
+        if m_pays.is_some() != with_output {
+            eprintln!("C06 node: model inconsistent: `cellbase` = {}, `verify` wants output = {}", canswer, with_output);
+            self.dead = true;
+            return;
+        }
         let cb0 = built.transactions()[0].clone();
+        // ChainBuilder always pays the reward out; when it cannot fill a cell with the target's lock
+        // ("insufficient reward": long miner args on this branch) the calculators' block is the
+        // builder's without that output (`is_lack_of_capacity`, the block assembler's rule), and U of
+        // its dao goes down by the output's occupied capacity (a pure re-encoding)
+        let builder_out_occ: Option<u64> = if !with_output && !cb0.outputs().is_empty() {
+            Some(cb0.outputs().get(0).unwrap().occupied_capacity(Capacity::zero()).expect("occupied").as_u64())
+        } else {
+            None
+        };
         let mk_cellbase = |out: Option<(u64, Script)>| -> TransactionView {
             let b = cb0.as_advanced_builder().set_outputs(vec![]).set_outputs_data(vec![]);
             match out {
@@ -919,8 +992,15 @@ impl Scn {
         };
         let mut txs_str = vec![cb_str];
         txs_str.extend(tx_labels.iter().map(|l| self.tx_str(*l)));
-        let bd = dao_tuple(&built.header().dao());
-        let impl_dao = format!("ok {} {} {} {} {}", hex(built.header().dao().as_slice()), bd.0, bd.1, bd.2, bd.3);
+        let calc_dao: Byte32 = match builder_out_occ {
+            Some(occ) => {
+                let t = dao_tuple(&built.header().dao());
+                pack_dao_data(t.0, Capacity::shannons(t.1), Capacity::shannons(t.2), Capacity::shannons(t.3 - occ))
+            }
+            None => built.header().dao(),
+        };
+        let bd = dao_tuple(&calc_dao);
+        let impl_dao = format!("ok {} {} {} {} {}", hex(calc_dao.as_slice()), bd.0, bd.1, bd.2, bd.3);
         let di = self.say(
             ctx,
             &format!("dao {} {} {} {} {} {} {} {} {} {} {}", self.cfg.ser, epoch.0, epoch.1, epoch.2, epoch.3, p_number, pd.0, pd.1, pd.2, pd.3, txs_str.join(";")),
@@ -945,7 +1025,10 @@ impl Scn {
             built.as_advanced_builder().set_transactions(txs).dao(dao.clone()).build()
         };
         let mblock = mk_block(&cellbase, &m_dao);
-        let same = mblock.hash() == built.hash();
+        let same = match builder_out_occ {
+            Some(_) => mblock.hash() == mk_block(&mk_cellbase(None), &calc_dao).hash(),
+            None => mblock.hash() == built.hash(),
+        };
         ctx.out.count(if same { "model-valued-block-equals-calculators-block" } else { "model-valued-block-differs-from-calculators-block" });
         let main_verdict_idx = if with_output { v_exact } else { v_none };
         let other_idx = if with_output { v_none } else { v_exact };
@@ -993,6 +1076,39 @@ impl Scn {
                     let i = self.say(ctx, &format!("verify {} {} {} {}:0", p_number, m_total, lock_occ, m_total), None);
                     let r = self.node().process(&mk_block(&mk_cellbase(Some((m_total, wrong))), &m_dao));
                     self.variant_result(ctx, i, &r, "cellbase-wrong-lock", number);
+                }
+                // the right amount to the miner of the block of the target's height on ANOTHER branch,
+                // and to this block's own miner (U follows the lock's size: the dao is re-encoded)
+                let mut others: Vec<(Script, &'static str)> = vec![];
+                {
+                    let mut cands: Vec<(u64, Script)> = self
+                        .blocks
+                        .values()
+                        .filter(|b| b.number == m_target && b.label != path[m_target as usize])
+                        .map(|b| (b.label, witness_lock(&b.block)))
+                        .filter(|(_, l)| *l != target_lock)
+                        .collect();
+                    cands.sort_by_key(|c| c.0);
+                    if let Some((_, l)) = cands.into_iter().next() {
+                        others.push((l, "cellbase-pays-the-other-branchs-miner"));
+                    }
+                    if miner_lock != target_lock && others.iter().all(|(l, _)| *l != miner_lock) {
+                        others.push((miner_lock.clone(), "cellbase-pays-its-own-miner"));
+                    }
+                }
+                for (wl, kind) in others {
+                    if self.dead {
+                        break;
+                    }
+                    let wocc = CellOutput::new_builder().lock(wl.clone()).build().occupied_capacity(Capacity::zero()).expect("occupied").as_u64();
+                    if wocc > m_total || wl.args().raw_data().len() + miner_lock.args().raw_data().len() > 500_000 {
+                        // the cell could not exist at all / the block would exceed the size limit: another rule
+                        continue;
+                    }
+                    let dao = pack_dao_data(m_dao_t.0, Capacity::shannons(m_dao_t.1), Capacity::shannons(m_dao_t.2), Capacity::shannons(m_dao_t.3 - lock_occ + wocc));
+                    let i = self.say(ctx, &format!("verify {} {} {} {}:0", p_number, m_total, lock_occ, m_total), None);
+                    let r = self.node().process(&mk_block(&mk_cellbase(Some((m_total, wl))), &dao));
+                    self.variant_result(ctx, i, &r, kind, number);
                 }
             }
             // dao bit flips: one bit in each of the four u64 fields (+ extras)
@@ -1085,15 +1201,22 @@ impl Scn {
         if with_output {
             ctx.out.count("model-valued-block-accepted:with-reward-output");
         }
+        if builder_out_occ.is_some() {
+            // the builder goes on from the block without the output (its stores replay `blocks`)
+            self.builder.blocks.insert(mblock.hash(), mblock.clone());
+            ctx.out.count(if on_tip { "fork-scenario-block-with-insufficient-reward" } else { "fork-scenario-block-with-insufficient-reward:on-a-side-branch" });
+        }
         // cells for later spending
         for (i, (o, d)) in cellbase.outputs_with_data_iter().enumerate() {
             self.cells.insert(OutPoint::new(cellbase.hash(), i as u32), (o, d.len() as u64));
         }
+        let lock_line = format!("lock {} {} {}", number, miner_id, miner_lock.args().raw_data().len());
         self.blocks.insert(
             label,
-            BlkRec { label, parent, number, block: mblock.clone(), props, uprops, ids: tx_labels, blk_line: blk_line.clone(), lock_line: None, pend_verdict: std::mem::take(&mut pend_verdict), pend_fee: fee_idx, compared: false },
+            BlkRec { label, parent, number, block: mblock.clone(), props, uprops, ids: tx_labels, blk_line: blk_line.clone(), lock_line: Some(lock_line.clone()), pend_verdict: std::mem::take(&mut pend_verdict), pend_fee: fee_idx, compared: false },
         );
         self.say(ctx, &blk_line, Some("ok".into()));
+        self.say(ctx, &lock_line, Some("ok".into()));
         self.model_chain.push(label);
 
         // ---- after acceptance: everything that is on the node's main chain now and not yet compared
@@ -1920,18 +2043,33 @@ fn gen_scenario(rng: &mut Rng, thorough: bool) -> Vec<String> {
     snaps.insert(0, st.clone());
     let mut next_tx = 1u64;
     let mut next_blk = 1u64;
-    let mut forks_left = if rng.chance(1, 2) { 1 + rng.below(2) } else { 0 };
+    // distinct miners: every block names its miner lock; the blocks of a fork are mined by other
+    // miners than the blocks they compete with, forks can be longer than the finalisation delay (the
+    // target of a side-branch block is then ON the side branch), and one branch may be mined with
+    // lock args so long that the finalised reward cannot fill the reward cell (on that branch only)
+    let multi = rng.chance(2, 3);
+    let mut forks_left = if multi { 1 + rng.below(2) } else if rng.chance(1, 2) { 1 + rng.below(2) } else { 0 };
     let mut produced = 0;
     // blocks still to build on a fork before it overtakes the old branch
     let mut fork_todo = 0u64;
+    let mut branch = 0u64;
+    let mut huge_len: Option<u64> = None;
+    let mut huge_blocks: HashSet<u64> = HashSet::new();
     while produced < len || fork_todo > 0 {
         // fork: go back k blocks, build k+1 blocks there
-        if fork_todo == 0 && forks_left > 0 && st.number >= 3 && rng.chance(1, 8) {
-            let k = rng.range(1, 3.min(st.number - 1));
+        if fork_todo == 0 && forks_left > 0 && st.number >= 3 && rng.chance(1, if multi { 5 } else { 8 }) {
+            let kmax = if multi && rng.chance(1, 2) { (delay + 1).min(st.number - 1) } else { 3.min(st.number - 1) };
+            let k = rng.range(1, kmax);
             let anc = st.path[(st.number - k) as usize];
             st = snaps[&anc].clone();
             fork_todo = k + 1;
             forks_left -= 1;
+            branch += 1;
+            huge_len = if multi && epoch_len >= 5 && rng.chance(1, 2) {
+                Some(((1_917_808 / epoch_len) * *rng.pick(&[90u64, 99, 100, 101, 110, 140]) / 100).min(450_000))
+            } else {
+                None
+            };
         }
         let n = st.number + 1;
         // new transactions
@@ -2030,11 +2168,24 @@ fn gen_scenario(rng: &mut Rng, thorough: bool) -> Vec<String> {
         // outputs of uncommitted txs can be spent by new txs (chained), of committed ones too: nothing to move
         let label = next_blk;
         next_blk += 1;
-        lines.push(format!("nb {} {} {} {} {} {}", label, st.tip, label, fmt_nums(&commits), fmt_nums(&props), fmt_nums(&uncle_labels)));
+        if multi {
+            let lock = match huge_len {
+                // (a block carries its own witness lock and, in its reward output, the target's lock:
+                // both long would exceed the block size limit)
+                Some(l) if rng.chance(1, 2) && !(n > delay && huge_blocks.contains(&st.path[(n - delay) as usize])) => {
+                    huge_blocks.insert(label);
+                    format!("a{}.{}", l, 900 + branch)
+                }
+                _ => format!("a{}.{}", *rng.pick(&[0u64, 1, 20, 32, 33, 100]), 1 + branch * 8 + rng.below(3)),
+            };
+            lines.push(format!("nb {} {} {} {} {} {} {}", label, st.tip, label, fmt_nums(&commits), fmt_nums(&props), fmt_nums(&uncle_labels), lock));
+        } else {
+            lines.push(format!("nb {} {} {} {} {} {}", label, st.tip, label, fmt_nums(&commits), fmt_nums(&props), fmt_nums(&uncle_labels)));
+        }
         st.tip = label;
         st.number = n;
         st.path.push(label);
-        if n > delay && rng.chance(1, 3) {
+        if n > delay && !huge_blocks.contains(&st.path[(n - delay) as usize]) && rng.chance(1, 3) {
             st.avail.push(GCell { r: CellRef::C(label), lb: 10_000_000_000_000, parent_tx: None });
         }
         st.pending.retain(|t| !t.committed);
